@@ -12,10 +12,11 @@
    correspondence harness (real scanner on the real String() vs [tokens_of] of the real tree).
    Property theorems only. *)
 (* source tie by translation: the lemmas of these files are obligations of this property *)
-From Soy Require Import Proofs.SourceTieExpr Proofs.SourceTieQuote.
+From Soy Require Import Proofs.SourceTieExpr Proofs.SourceTieQuote Proofs.SourceTieAstPrint.
 From Soy Require Import Model.Bytes Model.Num Model.Values Model.Ast Model.Token Model.NumLit Model.Quote Model.ExprParser
   Model.AstPrint Generated.Tables Spec.ExprSyntax Proofs.ExprParserRules Proofs.LiteralProofs Proofs.ExprParserProofs Proofs.PlaceholderTextProofs.
 From Soy Require Import Model.Outcome Model.MsgId Proofs.MsgIdProofs.
+From Soy Require Import Model.RawText Model.Parser Model.AstPrintCmd Spec.CmdSyntax Proofs.CmdRoundtripBase Proofs.CmdRoundtripRules Proofs.CmdRoundtrip.
 Open Scope N_scope.
 
 (* Parsing the items of the printed expression gives back the expression itself (positions
@@ -157,3 +158,65 @@ Example C17_roundtrip_nonvacuous :
   (exists st, parse_expr_top 40 (tokens_of ex_nested ++ [T_rdelim]) = POk ex_nested st) /\
   (exists st, parse_expr_top 60 (tokens_of ex_tern ++ [T_rdelim]) = POk ex_tern st).
 Proof. split; eexists; vm_compute; reflexivity. Qed.
+
+(* ---- extension to template bodies (the property's text speaks of expressions and print
+   commands; this is the same statement for the command forms whose String() is source syntax
+   the parser accepts again: raw text, print, {log}, {debugger}, {let} in both forms,
+   {if}/{elseif}/{else}, {for}/{ifempty}, nested to any depth).  Model/Parser.v's itemList
+   (parse.go itemList / textOrTag / beginTag and the command parsers, same next/backup/peek
+   order as the Go code), started in ANY parser state outside a {msg} that delivers the items
+   of a well-formed body followed by "{" and an item u that ends the list, returns that body
+   itself for every fuel above some bound, has consumed "{" and u, and leaves the items that
+   follow.  Not covered: {switch} (its default case prints as "{case }"), {call}, {msg}, {css},
+   templates, soydoc, namespace -- see notes/astprint-reparse.md. ---- *)
+Theorem C17_parse_body_roundtrip_partial :
+  forall (inlen : N) (lexq : bstr -> list tok) (unq : bstr -> option bstr) (efuel : list tok -> nat)
+         x until u rest,
+  wf_body x -> good_until until = true -> one_of (t_typ u) until = true ->
+  forall s, stream (c_p s) = body_toks x ++ T_ldelim :: u :: rest -> inv (c_p s) -> c_inmsg s = false ->
+  exists p', stream p' = rest /\ inv p' /\
+    exists f0, forall f, (f0 <= f)%nat -> item_list inlen lexq unq parse_expr efuel f until s = COk x (set_p s p').
+Proof.
+  intros inlen lexq unq efuel x until u rest Hwf Hg Hu s Hs Hi Hm.
+  destruct (parse_body_roundtrip inlen lexq unq efuel x until u rest Hwf Hg Hu s Hs Hi Hm) as (p' & H1 & H2 & _ & _ & f0 & HF).
+  exists p'. split; [exact H1|]. split; [exact H2|]. exists f0. intros f Hf. exact (HF f f Hf Hf).
+Qed.
+Print Assumptions C17_parse_body_roundtrip_partial.
+
+(* every list of closing items the parser uses for a body is "good": no item that starts a
+   command or text of a body can be mistaken for the end of the list *)
+Example C17_until_lists_good :
+  forallb good_until [u_log; u_let; u_if; u_for; u_ifempty; u_template; u_param; u_case; u_msg] = true.
+Proof. vm_compute. reflexivity. Qed.
+
+(* non-vacuity: a body with every covered form, well-formed, printed, and read back by computation *)
+Definition ex_body : node :=
+  NList 5 [ NRawText 5 (b "Hi ");
+            NPrint 7 (NDataRef 7 (b "a") []) [NDirective 8 (b "truncate") [NInt 9 5]];
+            NIf 11 [ NIfCond 11 (Some (NBin OAnd 13 (NDataRef 12 (b "a") []) (NNot 14 (NDataRef 15 (b "b") [])))) (NList 16 [NRawText 16 (b "x")]);
+                     NIfCond 11 (Some (NDataRef 17 (b "c") [])) (NList 0 []);
+                     NIfCond 11 None (NList 0 [NDebugger 18]) ];
+            NFor 20 (b "i") (NFunc 21 (b "range") [NInt 22 3])
+                 (NList 0 [NLetValue 23 (b "v") (NBin OAdd 25 (NDataRef 24 (b "i") []) (NInt 26 1)); NPrint 27 (NDataRef 27 (b "v") []) []])
+                 (Some (NList 28 [NRawText 28 (b "none")]));
+            NLetContent 30 (b "w") (NList 0 [NLog 31 (NList 32 [NRawText 32 (b "in log")])]) ].
+
+Example C17_body_wf_nonvacuous : wf_body ex_body.
+Proof.
+  cbn. unfold key_ok, float_ok.
+  repeat match goal with
+         | |- _ /\ _ => split
+         | |- True => exact I
+         | |- _ = _ => vm_compute; reflexivity
+         | |- _ <> _ => discriminate
+         end.
+Qed.
+
+Example C17_body_prints_nonvacuous :
+  print_tree ex_body = Some (b "Hi {$a|truncate:5}{if $a and not $b}x{elseif $c}{else}{debugger}{/if}{for $i in range(3)}{let $v: $i + 1 /}{$v}{ifempty}none{/for}{let $w}{log}in log{/log}{/let}").
+Proof. vm_compute. reflexivity. Qed.
+
+Example C17_body_roundtrip_nonvacuous :
+  exists s, item_list 0 (fun _ => []) (fun _ => None) parse_expr (fun _ => 0%nat) 60 u_template
+              (cst_init (body_toks ex_body ++ [T_ldelim; kw pit_TemplateEnd 0; T_rdelim])) = COk ex_body s.
+Proof. eexists. vm_compute. reflexivity. Qed.
